@@ -86,7 +86,11 @@ C16Checks(e) ==
                    ELSE Chk("C16.yearStar.newYear", << k, x.ly, x.ys[1] >>, x.ys[1] = YearStar(x.ly))
                         + Chk("C16.yearStar.lichunDay", << k, x.ys[2] >>, x.ys[2] = YearStar(PillarYearByDay(y, J, T[PosLiChun])) /\ x.ys[4] = x.ys[2])
                         + Chk("C16.yearStar.lichunInstant", << k, x.ys[3] >>, x.ys[3] = YearStar(PillarYearByInstant(y, noon, T[PosLiChun])))
-                        + Chk("C16.dayStar", << k, x.ds >>, x.ds \in DayStars(J)))
+                        \* January days before the winter anchor continue the descending run from the previous
+                        \* summer's anchor; when that run is 240 days long the case is reported under its own name
+                        + (IF J < NearestJiaZi(T[PosDongZhiPrev].jdn) /\ NearestJiaZi(T[PosDongZhiPrev].jdn) - NearestJiaZi(JDN(e.pxz[1], e.pxz[2], e.pxz[3])) = 240
+                             THEN Chk("C16.dayStar.before-winter-anchor", << "descending-run-240", k, x.ds >>, x.ds \in DayStars(J))
+                             ELSE Chk("C16.dayStar", << k, x.ds >>, x.ds \in DayStars(J))))
                 \* month star: one step back at each Jie day, unchanged otherwise
                 + (IF i < n /\ R[i + 1].p = 0
                      THEN LET nx == R[i + 1]
